@@ -20,7 +20,7 @@
 
 extern "C" {
 #include "device/props/storage.h"
-void aq_logger(int, const char*, int, const char*, const char*, ...) {}
+// (the real logger is linked; no reporter is installed, so it stays silent)
 }
 
 // ---------------------------------------------------------------- allocation ledger
